@@ -9,95 +9,110 @@ package main
 //           c.Store(f(c.Load() + d))
 
 import (
-	"bytes"
 	"go/ast"
-	"go/format"
 	"go/parser"
 	"go/token"
 	"os"
+	"sort"
 
 	"golang.org/x/tools/go/ast/astutil"
 )
 
 const hookPkg = "github.com/yandex/pandora/lib/zzverifhook"
 
+// The instrumentation is done on the source text at the offsets found in the AST (insertions
+// only), so that comments and layout cannot confuse a printer.
 func rewriteFile(in, out string, doNow, doYield bool) error {
-	fset := token.NewFileSet()
-	f, err := parser.ParseFile(fset, in, nil, parser.ParseComments)
+	src, err := os.ReadFile(in)
 	if err != nil {
 		return err
 	}
-	used := false
-	if doNow {
-		timeName := ""
-		for _, imp := range f.Imports {
-			if imp.Path.Value == `"time"` {
-				timeName = "time"
-				if imp.Name != nil {
-					timeName = imp.Name.Name
-				}
+	fset := token.NewFileSet()
+	f, err := parser.ParseFile(fset, in, src, parser.ParseComments)
+	if err != nil {
+		return err
+	}
+	type edit struct {
+		off, del int
+		ins      string
+		seq      int
+	}
+	var edits []edit
+	off := func(p token.Pos) int { return fset.Position(p).Offset }
+	add := func(o, del int, ins string) { edits = append(edits, edit{o, del, ins, len(edits)}) }
+	timeName := ""
+	for _, imp := range f.Imports {
+		if imp.Path.Value == `"time"` {
+			timeName = "time"
+			if imp.Name != nil {
+				timeName = imp.Name.Name
 			}
 		}
-		if timeName != "" {
-			astutil.Apply(f, func(c *astutil.Cursor) bool {
-				if call, ok := c.Node().(*ast.CallExpr); ok && len(call.Args) == 0 {
-					if sel, ok := call.Fun.(*ast.SelectorExpr); ok && sel.Sel.Name == "Now" {
-						if id, ok := sel.X.(*ast.Ident); ok && id.Name == timeName && id.Obj == nil {
-							sel.X = ast.NewIdent("zzverifhook")
-							used = true
-						}
+	}
+	if doNow && timeName != "" {
+		ast.Inspect(f, func(n ast.Node) bool {
+			if call, ok := n.(*ast.CallExpr); ok && len(call.Args) == 0 {
+				if sel, ok := call.Fun.(*ast.SelectorExpr); ok && sel.Sel.Name == "Now" {
+					if id, ok := sel.X.(*ast.Ident); ok && id.Name == timeName && id.Obj == nil {
+						add(off(id.Pos()), len(id.Name), "zzverifhook")
 					}
 				}
-				return true
-			}, nil)
-		}
+			}
+			return true
+		})
 	}
 	if doYield {
 		astutil.Apply(f, func(c *astutil.Cursor) bool {
 			if call, ok := c.Node().(*ast.CallExpr); ok && len(call.Args) == 0 {
 				if sel, ok := call.Fun.(*ast.SelectorExpr); ok && sel.Sel.Name == "Load" {
 					if _, isStmt := c.Parent().(*ast.ExprStmt); !isStmt {
-						c.Replace(&ast.CallExpr{Fun: &ast.SelectorExpr{X: ast.NewIdent("zzverifhook"), Sel: ast.NewIdent("After")}, Args: []ast.Expr{call}})
-						used = true
+						add(off(call.Pos()), 0, "zzverifhook.After(")
+						add(off(call.End()), 0, ")")
 						return false
 					}
 				}
 			}
 			return true
 		}, nil)
-		hook := func() ast.Stmt {
-			return &ast.ExprStmt{X: &ast.CallExpr{Fun: &ast.SelectorExpr{X: ast.NewIdent("zzverifhook"), Sel: ast.NewIdent("Yield")}}}
-		}
-		rewriteList := func(list []ast.Stmt) []ast.Stmt {
-			var outl []ast.Stmt
-			for _, s := range list {
-				outl = append(outl, hook(), s)
-				used = true
+		hookList := func(list []ast.Stmt) {
+			for _, st := range list {
+				switch st.(type) {
+				case *ast.CaseClause, *ast.CommClause:
+					continue // (the body of a switch/select: its clauses are instrumented, not preceded)
+				}
+				add(off(st.Pos()), 0, "zzverifhook.Yield(); ")
 			}
-			return outl
 		}
 		ast.Inspect(f, func(n ast.Node) bool {
 			switch n := n.(type) {
 			case *ast.BlockStmt:
-				n.List = rewriteList(n.List)
+				hookList(n.List)
 			case *ast.CaseClause:
-				n.Body = rewriteList(n.Body)
+				hookList(n.Body)
 			case *ast.CommClause:
-				n.Body = rewriteList(n.Body)
+				hookList(n.Body)
 			}
 			return true
 		})
 	}
-	if used {
-		astutil.AddImport(fset, f, hookPkg)
+	if len(edits) > 0 {
+		// the hook import right after the package clause (its own declaration)
+		add(off(f.Name.End()), 0, "; import \"" + hookPkg + "\"")
 	}
-	if !astutil.UsesImport(f, "time") {
-		astutil.DeleteImport(fset, f, "time")
+	// apply from the end of the file; edits at the same offset keep their order of creation
+	sort.SliceStable(edits, func(i, j int) bool {
+		if edits[i].off != edits[j].off {
+			return edits[i].off > edits[j].off
+		}
+		return edits[i].seq > edits[j].seq
+	})
+	outb := append([]byte{}, src...)
+	for _, e := range edits {
+		outb = append(outb[:e.off], append([]byte(e.ins), outb[e.off+e.del:]...)...)
 	}
-	f.Comments = nil
-	var buf bytes.Buffer
-	if err := format.Node(&buf, fset, f); err != nil {
-		return err
+	if timeName != "" {
+		// the time import may have lost its last use
+		outb = append(outb, []byte("\nvar _ "+timeName+".Duration\n")...)
 	}
-	return os.WriteFile(out, buf.Bytes(), 0o644)
+	return os.WriteFile(out, outb, 0o644)
 }
